@@ -501,6 +501,14 @@ def int_to_str(st, v):
         st.assume(r == z3.If(v.z, z3.StringVal("True"), z3.StringVal("False")))
         return SStr([Sq(r)])
     z = v.z
+    dom = _domain_of(st, v)
+    if dom is not None and len(dom) <= 300:
+        # finite value set: str() is a table, which composes with the table the int came from
+        found, res = lookup_table(st, v, [(d, str(d)) for d in sorted(dom)])
+        if res is not None and found is True:
+            val, cons = res
+            st.assume(cons)
+            return val
     if st.implied(z >= 0):
         return SStr([Sq(z3.IntToStr(z))])
     if st.branch(z >= 0):
